@@ -106,6 +106,11 @@ theorem swaps_restored : Purity.swapsRestored Generated.Writes.sites = true := b
     copy is reachable from the returned callback. -/
 theorem inline_copies_first : Purity.copyBeforeMutate Generated.Writes.inlineEvents = true := by decide
 
+/-- No class of the hand-written modules has a mutable container (`set()`, `{}`, `[]`, `dict()`,
+    `list()` …) assigned in its class body: such an object would be shared by every instance —
+    every Builder, Scope, Graph, Node of the process — and carry state from one build to the next. -/
+theorem no_class_level_mutable_state : Generated.Writes.classMutables = [] := by decide
+
 /-! ## Memoised build results (`Graph._build_result`) -/
 
 /-- **cache_transparent.** For any sequence of reads (`_get_build_result`) and setter calls on a
